@@ -133,7 +133,8 @@ func (p *VipnodePool) verify(sig string, method string, nodeID string, nonce int
 func (p *VipnodePool) disconnectPeers(ctx context.Context, nodeID string, peers []store.Node) error {
 	callCtx, cancel := context.WithTimeout(ctx, poolWhitelistTimeout)
 	defer cancel()
-	errCh := make(chan error, 1)
+	// Buffered, a call that returns after we stopped waiting must not block.
+	errCh := make(chan error, len(peers))
 	count := 0
 	p.mu.Lock()
 	for _, peer := range peers {
@@ -147,10 +148,18 @@ func (p *VipnodePool) disconnectPeers(ctx context.Context, nodeID string, peers 
 	p.mu.Unlock()
 
 	errors := []error{}
+collect:
 	for i := 0; i < count; i++ {
-		err := <-errCh
-		if err != nil {
-			errors = append(errors, err)
+		select {
+		case err := <-errCh:
+			if err != nil {
+				errors = append(errors, err)
+			}
+		case <-callCtx.Done():
+			// A host that does not even read anymore blocks its call in the
+			// write, where the timeout does not reach it: don't wait for it.
+			errors = append(errors, callCtx.Err())
+			break collect
 		}
 	}
 
@@ -524,8 +533,9 @@ func (p *VipnodePool) requestHosts(ctx context.Context, nodeID string, numReques
 	callCtx, cancel := context.WithTimeout(ctx, poolWhitelistTimeout)
 
 	// Parallelize whitelist, return any hosts that respond within the timeout.
-	errChan := make(chan error)
-	acceptChan := make(chan store.Node)
+	// Buffered, a call that returns after we stopped waiting must not block.
+	errChan := make(chan error, len(remotes))
+	acceptChan := make(chan store.Node, len(remotes))
 
 	for _, remote := range remotes {
 		go func(service jsonrpc2.Service, node store.Node) {
@@ -538,12 +548,19 @@ func (p *VipnodePool) requestHosts(ctx context.Context, nodeID string, numReques
 	}
 
 	errors := []error{}
+collect:
 	for i := len(remotes); i > 0; i-- {
 		select {
 		case node := <-acceptChan:
 			accepted = append(accepted, node)
 		case err := <-errChan:
 			errors = append(errors, err)
+		case <-callCtx.Done():
+			// A host that does not even read anymore blocks its call in the
+			// write, where the timeout does not reach it: the hosts that did
+			// answer in time are returned without it.
+			errors = append(errors, callCtx.Err())
+			break collect
 		}
 	}
 	cancel()
